@@ -1,13 +1,17 @@
 """C13 - dropping removes exactly what was named, for every kind of read, for good.
 Mode A: TLC exhaustively checks specs/DropSem.tla (catalogue + live series + rows over the layers memory / flushed /
-        out-of-order / compacted; Write, Flush, Compact, Restart, DropSeries(pred), DropMeasurement, DropRP, DropDatabase
-        and re-creation) for DroppedStaysGone, OthersUntouched, FreshAfterRecreate, AllShapesAgree.
+        out-of-order / compacted, rows spread over shard groups / index groups; Write, Flush, Compact, Restart,
+        DropSeries(pred), the refused statements (DROP SERIES without FROM / with a time bound, DELETE, DROP SHARD),
+        DropMeasurement, DropRP, DropDatabase in one step and in the three steps mark / stores delete / catalogue entry
+        removed with writes and creates in between, and re-creation) for DroppedStaysGone, OthersUntouched, WritesLand,
+        FreshAfterRecreate, AllShapesAgree, DeletedSetEverywhere, AckedCreateHolds.
 Mode B: TLC simulates behaviours that share a skeleton of global actions (flush / compaction / restart); every behaviour
         is replayed over HTTP into its own database of ONE real single-node server per skeleton (the behaviours run
         concurrently and meet at a barrier for every global action, so that a flush or restart happens exactly where the
         behaviour has it).  After EVERY action the full read-shape matrix is issued and compared with the
-        specification's expectation."""
-import json, os, random, re, sys, threading, time, itertools, glob
+        specification's expectation.  Skeletons A-E: one shard group; G, H: three shard groups weeks apart (H: two of
+        them served by one index group); P, Q: two-phase drops with racing writes / creates."""
+import json, os, random, re, sys, threading, time, itertools, glob, urllib.request
 import concurrent.futures as cf
 import vlib
 sys.path.insert(0, os.path.join(vlib.ROOT, "tools"))
@@ -22,12 +26,26 @@ SKELS = {
     "C": ["RestartKill", "Flush", "RestartClean"],
     "D": ["Flush", "Compact", "RestartKill", "Flush", "Compact"],
     "E": ["RestartClean", "Flush", "Flush", "RestartKill"],
+    "G": ["RestartClean", "Flush", "RestartKill"],          # shard groups / index groups over time
+    "H": ["Flush", "RestartKill", "RestartClean"],          # ... two shard groups share an index group
+    "P": ["RestartKill", "Flush", "RestartClean"],          # two-phase drops
+    "Q": ["RestartClean", "RestartKill", "Flush"],
 }
+GROUPED = ("G", "H")
+PHASED = ("P", "Q")
 SEEDS = ["drop_forgets_memtable", "restart_resurrects", "taglisting_keeps_dropped", "recreate_reuses_version", "cross_rp_drop",
-         "recreate_fresh"]
+         "recreate_fresh", "late_index_unwired", "deleted_set_everywhere", "write_dropped_series_lost",
+         "drop_series_time_ignored", "create_busy_acked", "store_purges_recreated", "reuse_version_after_finish",
+         "drop_series_volatile"]
 SEED_EXPECT = {"drop_forgets_memtable": "AllShapesAgree", "restart_resurrects": "DroppedStaysGone",
                "taglisting_keeps_dropped": "AllShapesAgree", "recreate_reuses_version": "DroppedStaysGone",
-               "cross_rp_drop": "OthersUntouched", "recreate_fresh": "FreshAfterRecreate"}
+               "cross_rp_drop": "OthersUntouched", "recreate_fresh": "FreshAfterRecreate",
+               "late_index_unwired": "DroppedStaysGone", "deleted_set_everywhere": "DeletedSetEverywhere",
+               "write_dropped_series_lost": "WritesLand", "drop_series_time_ignored": "OthersUntouched",
+               "create_busy_acked": "AckedCreateHolds", "store_purges_recreated": "OthersUntouched",
+               "reuse_version_after_finish": "DroppedStaysGone", "drop_series_volatile": "DroppedStaysGone"}
+F = "value"          # the field (PromQL reads the float field called value)
+os.environ.setdefault("JAVA_TOOL_OPTIONS", "-Xmx3g")
 
 CONV = 30.0          # bound (s) on the asynchronous convergence after an acknowledged statement
 RANGE = 128          # series ids reserved per database incarnation
@@ -42,8 +60,15 @@ EMPTY_ERRORS = ("measurement not found", "measurement is being delete", "databas
 NAME_SCAN_SHAPES = {"plain", "ne", "nre", "ff", "gtag", "gtime", "cnt", "sum", "cntg", "sumg"}
 RESUF_SHAPES = {"re", "cntre"}
 ROW_SHAPES = ["plain", "eq", "ne", "re", "nre", "or", "and", "ff"]
-ALL_SHAPES = ROW_SHAPES + ["gtag", "gtime", "cnt", "sum", "cntg", "sumg", "cntre"]
-LIST_SHAPES = ["series", "tkeys", "thost", "tregion"]
+ALL_SHAPES = ROW_SHAPES + ["gtag", "gtime", "cnt", "sum", "cntg", "sumg", "cntre",
+                           # ORDER BY time DESC, per-series LIMIT / OFFSET, SLIMIT, fill(0) / fill(previous), sub-queries
+                           "desc", "last", "lim", "slim", "fill0", "fillp", "sub", "subcnt", "submax",
+                           # chunked answer, SELECT ... INTO source, PromQL range selector
+                           "chunk", "into", "prom", "promb"]
+LIST_SHAPES = ["series", "tkeys", "thost", "tregion", "scard", "fkeys", "pseries", "phost"]
+RACING = ("CreateRPBusy", "CreateDatabaseBusy", "WriteRefused")
+MARKS = ("DropRPMark", "DropDatabaseMark", "DropMeasurementMark")
+GLOBALS = ("Flush", "Compact", "RestartClean", "RestartKill")
 FINDING_TEXT = {
     "F-C13-1": "rows of a series removed by DROP SERIES are still returned by selections that scan the measurement's series by name "
                "(no tag filter, field filter, !=, !~, group by, aggregates)",
@@ -54,8 +79,18 @@ FINDING_TEXT = {
     "F-C13-6": "SHOW SERIES / SHOW TAG VALUES FROM rp.m also list the series of the same measurement in the other retention policy",
     "F-C13-7": "rows of a series dropped while still in the write-ahead log come back after a restart",
     "F-C13-8": "the series of a dropped measurement stay listed through the same-named measurement of the other retention policy",
+    "F-C13-9": "DROP SERIES does not hide the series of an index group that was created after the policy's deleted-series set (new "
+               "shard group / index group): they stay readable until the next start, which then also removes what was written to them "
+               "meanwhile and flushed",
+    "F-C13-10": "DROP SERIES ... WHERE <tags> AND time < t is acknowledged and drops the WHOLE series (the time bound is ignored)",
+    "F-C13-11": "CREATE RETENTION POLICY right after DROP RETENTION POLICY of the same name is acknowledged while the old policy is "
+                "still being deleted, and the policy is gone a moment later",
+    "F-C13-12": "SLIMIT / SOFFSET are ignored: every series is returned",
+    "F-C13-13": "a kill right after an acknowledged DROP SERIES loses the record of the statement: the dropped series are back after the start",
+    "F-C13-14": "a PromQL selector over several series omits live series that single-series selectors and SELECT return",
 }
-CAUSE = {"cross": "F-C13-4", "wal": "F-C13-7"}
+CAUSE = {"cross": "F-C13-4", "wal": "F-C13-7", "unwired": "F-C13-9", "timedrop": "F-C13-10", "volatile": "F-C13-13"}
+DURABLE_AFTER = 3.0  # seconds after which the record of an acknowledged DROP SERIES is on disk (the table writes out every 1-2 s)
 
 
 def skey(x):
@@ -79,14 +114,30 @@ def tlc(cfg, **kw):
 def gen_behaviours(tier, seed):
     """-> ({skeleton letter: [hist]}, stats, future of the exhaustive run)"""
     quick = tier == "quick"
-    letters = ["A", "B", "C"] if quick else ["A", "B", "C", "D", "E"]
+    letters = ["A", "B", "C", "G", "P"] if quick else ["A", "B", "C", "D", "E", "G", "H", "P", "Q"]
+    only = os.environ.get("C13_ONLY")            # development aid: restrict the skeletons (never set by ./check)
+    if only:
+        letters = [k for k in letters if k in only]
     nsim = 24 if quick else 80
     depth = 10 if quick else 14
     per = 14 if quick else 36
     stats = {"sim": {}}
     out = {}
+    cfgdir = vlib.scratch("c13cfg")
+
+    def sim_cfg(k):
+        """the simulation configuration of a skeleton with the behaviour length of the tier (two more steps where the drops
+        are in three steps each)"""
+        d = depth + (2 if k in PHASED else 0)
+        txt = open(os.path.join(vlib.SPECS, "cfg", f"DropSem.sim.{k}.cfg")).read()
+        txt, n = re.subn(r"(?m)^  Depth = \d+$", f"  Depth = {d}", txt)
+        if n != 1:
+            raise vlib.Infra(f"DropSem.sim.{k}.cfg: no Depth line")
+        p = os.path.join(cfgdir, f"DropSem.sim.{k}.cfg")
+        open(p, "w").write(txt)
+        return p, d
     with cf.ThreadPoolExecutor(len(letters)) as ex:
-        futs = {k: ex.submit(tlc, f"DropSem.sim.{k}.cfg", simulate=nsim, depth=depth, seed=seed + 17 * i, timeout=900)
+        futs = {k: ex.submit(tlc, sim_cfg(k)[0], simulate=nsim, depth=sim_cfg(k)[1], seed=seed + 17 * i, timeout=900)
                 for i, k in enumerate(letters)}
         for k, f in futs.items():
             r = f.result()
@@ -103,21 +154,67 @@ def gen_behaviours(tier, seed):
 
             def drops(h):
                 return sum(1 for e in h if e["a"].startswith("Drop") and e["a"] != "DropSeriesNoFrom")
-            first = sorted([h for h in hs if ooo(h)], key=lambda h: -drops(h))[:per // 3]
-            rest = sorted([h for h in hs if h not in first], key=lambda h: -drops(h))
-            hs = (first + rest)[:per]
+
+            def late_group(h):
+                """a DROP SERIES that meets an index group which was created after the policy's deleted set (the as-implemented
+                world keeps rows the design drops), or rows spread over several groups when a drop happens"""
+                sc = 0
+                for i, e in enumerate(h):
+                    if e["a"] in ("DropSeries", "DropSeriesTime") and i:
+                        if any("unwired" in v["cause"] for v in e["imp"]["inst"].values()):
+                            sc += 3
+                        tgt = h[i - 1]["exp"]["inst"][e["args"]["i"]]["sel"]["plain"]
+                        if len({r["t"] // 10 for r in tgt}) > 1:
+                            sc += 3 if e["a"] == "DropSeriesTime" else 1
+                return sc
+
+            def races(h):
+                sc = 0
+                for i, e in enumerate(h):
+                    if e["a"].endswith("Mark"):
+                        sc += 1
+                        if i and any(v["sel"]["plain"] and not e["exp"]["inst"][n]["sel"]["plain"] for n, v in h[i - 1]["exp"]["inst"].items()):
+                            sc += 2          # the drop removes rows
+                        if i + 1 < len(h) and (h[i + 1]["a"] in RACING or h[i + 1]["a"].startswith("Restart") or
+                                               (h[i + 1]["a"] == "Write" and e["a"] == "DropMeasurementMark"
+                                                and h[i + 1]["args"]["i"] == e["args"]["i"])):
+                            sc += 2
+                    if e["a"].endswith("Finish"):
+                        sc += 2
+                return sc
+            if k in GROUPED:
+                hs = sorted(hs, key=lambda h: (-late_group(h), -drops(h)))[:per]
+            elif k in PHASED:
+                hs = sorted(hs, key=lambda h: (-races(h), -drops(h)))[:per]
+            else:
+                first = sorted([h for h in hs if ooo(h)], key=lambda h: -drops(h))[:per // 3]
+                rest = sorted([h for h in hs if h not in first], key=lambda h: -drops(h))
+                hs = (first + rest)[:per]
             out[k] = hs
             stats["sim"][k] = {"traces": len(r["traces"]), "distinct_prefixes": len(groups), "replayed": len(hs), "num": nsim,
-                               "depth": depth, "wall_s": round(r["wall_s"], 1), "skeleton": SKELS[k]}
+                               "depth": depth + (2 if k in PHASED else 0), "wall_s": round(r["wall_s"], 1), "skeleton": SKELS[k]}
+    import shutil
+    shutil.rmtree(cfgdir, ignore_errors=True)
     return out, stats
 
 
+EXH = {"quick": ["DropSem.exh.quick.cfg", "DropSem.exh.groups.quick.cfg", "DropSem.exh.phases.quick.cfg"],
+       "thorough": ["DropSem.exh.thorough.cfg", "DropSem.exh.groups.thorough.cfg", "DropSem.exh.phases.thorough.cfg"]}
+
+
 def mode_a(tier):
-    cfg = "DropSem.exh.quick.cfg" if tier == "quick" else "DropSem.exh.thorough.cfg"
-    r = tlc(cfg, workers=8, timeout=2400)
-    st = {k: r[k] for k in ("generated", "distinct", "depth")}
-    st["wall_s"] = round(r["wall_s"], 1)
-    st["cfg"] = cfg
+    """the three exhaustive configurations: one shard group with every drop in one step (as before), several shard /
+    index groups, two-phase drops"""
+    runs = []
+    with cf.ThreadPoolExecutor(3) as ex:
+        futs = [(cfg, ex.submit(tlc, cfg, workers=6, timeout=2400)) for cfg in EXH["quick" if tier == "quick" else "thorough"]]
+        for cfg, f in futs:
+            r = f.result()
+            runs.append({"cfg": cfg, "generated": r["generated"], "distinct": r["distinct"], "depth": r["depth"],
+                         "wall_s": round(r["wall_s"], 1)})
+    st = {"generated": sum(x["generated"] for x in runs), "distinct": sum(x["distinct"] for x in runs),
+          "depth": max(x["depth"] for x in runs), "wall_s": max(x["wall_s"] for x in runs), "cfg": [x["cfg"] for x in runs],
+          "runs": runs}
     return st
 
 
@@ -125,7 +222,7 @@ def check_seeds():
     """every mutation seed must give a TLC counterexample of the named invariant (the invariants are not vacuous)"""
     res = {}
     with cf.ThreadPoolExecutor(3) as ex:
-        futs = {d: ex.submit(vlib.run_tlc, "DropSemMC", f"DropSem.dev.{d}.cfg", workers=4, timeout=900) for d in SEEDS}
+        futs = {d: ex.submit(vlib.run_tlc, "DropSemMC", f"DropSem.dev.{d}.cfg", workers=3, timeout=900) for d in SEEDS}
         for d, f in futs.items():
             r = f.result()
             res[d] = r["violated"]
@@ -141,8 +238,16 @@ def rt(r):
     return (r["h"], r["r"], r["t"], r["v"])
 
 
-def shapes_of(rows, k):
-    """rows: list of (h, r, t, v).  Canonical answers of every row shape."""
+HRANK = {"a": 1, "b": 2, "c": 3}
+RRANK = {"x": 1, "y": 2}
+
+
+def bucket(t):
+    return ((t - 1) // 2) * 2 + 1
+
+
+def shapes_of(rows, k, groups=(0,)):
+    """rows: list of (h, r, t, v).  Canonical answers of every row shape (mirror of the operators of DropSem.tla)."""
     R = sorted(rows)
 
     def grp(f):
@@ -152,17 +257,44 @@ def shapes_of(rows, k):
         return {h: f(v) for h, v in d.items()}
     gt = {}
     for x in R:
-        b = ((x[2] - 1) // 2) * 2 + 1
+        b = bucket(x[2])
         gt[b] = gt.get(b, 0) + 1
     re_ = [x for x in R if x[0] in ("a", "c")]
+    ser = {}
+    for x in R:
+        ser.setdefault(x[:2], []).append(x)
+    probe = sorted(ser.get(("a", "x"), []), key=lambda x: x[2])
+    last = probe[-1:]
+    lim = probe[1:2]
+    first = min(ser, key=lambda s: 10 * HRANK.get(s[0], 4) + RRANK.get(s[1], 3)) if ser else None
+    fill0, fillp = {}, {}
+    for g in sorted({x[2] // 10 for x in R}):
+        win = [x for x in R if x[2] // 10 == g]
+        prev = -1
+        for b in (10 * g + 1, 10 * g + 3, 10 * g + 5, 10 * g + 7):
+            inb = [x for x in win if bucket(x[2]) == b]
+            fill0[b] = len(inb)
+            if inb:
+                prev = sum(x[3] for x in inb)
+            fillp[b] = prev
+    ne = [x for x in R if x[0] != "b"]
     return {
-        "plain": R, "eq": [x for x in R if x[0] == "a"], "ne": [x for x in R if x[0] != "b"], "re": re_,
+        "plain": R, "eq": [x for x in R if x[0] == "a"], "ne": ne, "re": re_,
         "nre": [x for x in R if x[0] != "b"], "or": [x for x in R if x[0] == "a" or x[1] == "y"],
         "and": [x for x in R if x[0] != "b" and x[1] == "x"], "ff": [x for x in R if x[3] > k],
         "gtag": grp(lambda v: sorted((x[2], x[3]) for x in v)), "gtime": gt,
         "cnt": len(R), "sum": sum(x[3] for x in R), "cntg": grp(len), "sumg": grp(lambda v: sum(x[3] for x in v)),
         "cntre": len(re_),
+        "last": last, "lim": lim, "slim": sorted(ser[first]) if ser else [], "fill0": fill0, "fillp": fillp,
+        "subcnt": len(ne), "submax": grp(lambda v: max(x[3] for x in v)),
+        # the same rows through other machinery
+        "desc": R, "chunk": R, "into": R, "sub": R, "prom": R, "promb": R,
     }
+
+
+SPEC_SHAPES = ["plain", "eq", "ne", "re", "nre", "or", "and", "ff", "gtag", "gtime", "cnt", "sum", "cntg", "sumg", "cntre",
+               "last", "lim", "slim", "fill0", "fillp", "subcnt", "submax"]
+ALIAS = {"desc": "plain", "chunk": "plain", "into": "plain", "sub": "plain", "prom": "plain", "promb": "plain"}
 
 
 def leaked(live, extra, k, shape):
@@ -177,34 +309,43 @@ def leaked(live, extra, k, shape):
 def canon_exp(e):
     """TLA+ export of ShapesOf -> the canonical form of shapes_of"""
     out = {}
-    for s in ROW_SHAPES:
+    for s in ROW_SHAPES + ["last", "lim", "slim"]:
         out[s] = sorted(rt(r) for r in e[s])
     out["gtag"] = {g["h"]: sorted((x["t"], x["v"]) for x in g["x"]) for g in e["gtag"]}
     out["gtime"] = {g["b"]: g["c"] for g in e["gtime"]}
-    out["cnt"], out["sum"], out["cntre"] = e["cnt"], e["sum"], e["cntre"]
+    out["fill0"] = {g["b"]: g["c"] for g in e["fill0"]}
+    out["fillp"] = {g["b"]: g["c"] for g in e["fillp"]}
+    out["cnt"], out["sum"], out["cntre"], out["subcnt"] = e["cnt"], e["sum"], e["cntre"], e["subcnt"]
     out["cntg"] = {g["h"]: g["x"] for g in e["cntg"]}
     out["sumg"] = {g["h"]: g["x"] for g in e["sumg"]}
+    out["submax"] = {g["h"]: g["x"] for g in e["submax"]}
+    for a, b in ALIAS.items():
+        out[a] = out[b]
     return out
 
 
 def canon_listing(l):
-    return {"series": sorted((s["h"], s["r"]) for s in l["series"]), "tkeys": sorted(l["tkeys"]),
-            "thost": sorted(l["thost"]), "tregion": sorted(l["tregion"])}
+    series = sorted((s["h"], s["r"]) for s in l["series"])
+    return {"series": series, "tkeys": sorted(l["tkeys"]),
+            "thost": sorted(l["thost"]), "tregion": sorted(l["tregion"]), "scard": l["scard"], "fkeys": sorted(l["fkeys"]),
+            "pseries": series, "phost": sorted(l["thost"])}
 
 
 # ---------------------------------------------------------------------------------------------------
 # concretisation of one behaviour
 
-def week_safe_base(now_s, span_s):
-    """a start second such that [base, base + span] lies in one shard group (groups are weeks starting Monday 00:00 UTC)
-    and entirely in the past"""
-    base = now_s - span_s - 3600
-    wk = 604800
-    off = 345600          # 1970-01-05 (a Monday)
-    end = base + span_s
-    if (base - off) // wk != (end - off) // wk:
-        base = ((end - off) // wk) * wk + off - span_s - 7200      # move before the boundary
-    return base
+WEEK, DAY = 604800, 86400
+MONDAY0 = 345600          # 1970-01-05 00:00 UTC, a Monday; Go's Truncate(7d) / (1d) / (2h) boundaries fall on it too
+
+
+def group_bases(now_s, shared):
+    """start seconds of the three shard groups of a behaviour, all in the past, weeks apart: a Tuesday 02:25 UTC six weeks
+    ago (inside one 2-hour, one-day and one-week group for the 1.5 hours a behaviour spans), the same time two weeks later
+    and four weeks later.  shared: the second group lies two DAYS after the first, in the same week: with SHARD DURATION
+    1d and INDEX DURATION 7d the two shard groups are served by one index group."""
+    monday = ((now_s - MONDAY0) // WEEK) * WEEK + MONDAY0
+    b0 = monday - 6 * WEEK + DAY + 2 * 3600 + 25 * 60
+    return [b0, b0 + (2 * DAY if shared else 2 * WEEK), b0 + 4 * WEEK]
 
 
 class Conc:
@@ -219,19 +360,38 @@ class Conc:
         self.mst = {"m": "m" + sfx, "n": "n" + sfx}
         self.step = rnd.choice([1, 60, 600]) * 10 ** 9
         w = 2 * self.step
-        base = week_safe_base(int(time.time()), 8 * 600) * 10 ** 9
-        # time(1) is aligned to the window of two time units
-        self.base = (base // w) * w - self.step
-        self.kind = rnd.choice(["int", "int", "float"])
+        self.shared = bid == "H"
+        # the shard-group duration is set through the retention policy DDL (default of an infinite policy: 7d)
+        if self.shared:
+            self.rp_opts = {"rp1": " shard duration 1d index duration 7d", "rp2": " shard duration 1d index duration 7d"}
+        else:
+            self.rp_opts = {rp: rnd.choice(["", " shard duration 1d", " shard duration 2h"]) for rp in ("rp1", "rp2")}
+        # time(1) of every group is aligned to the window of two time units
+        self.gbase = [((b * 10 ** 9) // w) * w - self.step for b in group_bases(int(time.time()), self.shared)]
+        self.base = self.gbase[0]
+        # the shard groups the behaviour writes to
+        self.groups = sorted({0} | {r["t"] // 10 for e in hist for r in self.rows_of(e)})
+        self.kind = rnd.choice(["int", "float"])
         self.kv = rnd.choice([1, 3, 1000003]) if self.kind == "int" else rnd.choice([0.5, 1.5, 1024.0])
         self.re_text = rnd.choice(["/a|c/", "/c|a/", "/[ac]/"])
         self.nre_text = rnd.choice(["/b/", "/^b$/"])
+        self.chunk_size = rnd.choice([1, 2, 3])
         # statements always name the retention policy: an unqualified DROP MEASUREMENT m / DROP SERIES FROM m addresses
         # the measurement in the whole database (InfluxQL), only the qualified form names ONE policy's measurement
         self.drop_default_plain = False
 
+    @staticmethod
+    def rows_of(e):
+        a = e["args"]
+        if not isinstance(a, dict):
+            return []
+        return list(a.get("rows") or []) + list((a.get("race") or {}).get("rows") or [])
+
     def t(self, t):
-        return self.base + t * self.step
+        return self.gbase[t // 10] + (t % 10) * self.step
+
+    def win(self, g):
+        return self.t(10 * g + 1), self.t(10 * g + 9)
 
     def val(self, v):
         return v * self.kv
@@ -245,14 +405,17 @@ class Conc:
 
     def lines(self, inst, rows):
         n = inst.split(".")[1]
-        return [f"{self.mst[n]},host={r['h']},region={r['r']} v={self.lp_val(r['v'])} {self.t(r['t'])}" for r in rows]
+        return [f"{self.mst[n]},host={r['h']},region={r['r']} {F}={self.lp_val(r['v'])} {self.t(r['t'])}" for r in rows]
+
+    def rp_ddl(self, rp, db=None):
+        return (f"create retention policy {rp} on {db or self.db} duration 0s replication 1{self.rp_opts[rp]}"
+                + (" default" if rp == "rp1" else ""))
 
     # ---- the read-shape matrix -------------------------------------------------------------------
     def inst_statements(self, inst, k):
         s = self.src(inst)
         lit = self.val(k) if self.kind == "int" else repr(float(self.val(k)))
-        lo, hi = self.t(1), self.t(9)
-        return [
+        out = [
             ("plain", f"select * from {s}"),
             ("eq", f"select * from {s} where host = 'a'"),
             ("ne", f"select * from {s} where host != 'b'"),
@@ -260,20 +423,34 @@ class Conc:
             ("nre", f"select * from {s} where host !~ {self.nre_text}"),
             ("or", f"select * from {s} where host = 'a' or region = 'y'"),
             ("and", f"select * from {s} where host != 'b' and region = 'x'"),
-            ("ff", f"select * from {s} where v > {lit}"),
-            ("gtag", f"select v from {s} group by host"),
-            ("gtime", f"select count(v) from {s} where time >= {lo} and time < {hi} group by time({2 * self.step}ns) fill(none)"),
-            ("agg", f"select count(v), sum(v) from {s}"),
-            ("aggg", f"select count(v), sum(v) from {s} group by host"),
-            ("cntre", f"select count(v) from {s} where host =~ {self.re_text}"),
+            ("ff", f"select * from {s} where {F} > {lit}"),
+            ("gtag", f"select {F} from {s} group by host"),
+            ("agg", f"select count({F}), sum({F}) from {s}"),
+            ("aggg", f"select count({F}), sum({F}) from {s} group by host"),
+            ("cntre", f"select count({F}) from {s} where host =~ {self.re_text}"),
+            ("desc", f"select * from {s} order by time desc"),
+            ("last", f"select * from {s} where host = 'a' and region = 'x' order by time desc limit 1"),
+            ("lim", f"select * from {s} where host = 'a' and region = 'x' limit 1 offset 1"),
+            ("slim", f"select {F} from {s} group by * slimit 1"),
+            ("sub", f"select * from (select {F} from {s} group by *)"),
+            ("subcnt", f"select count({F}) from (select {F} from {s} where host != 'b')"),
+            ("submax", f"select max({F}) from (select {F} from {s} group by host) group by host"),
         ]
+        for g in self.groups:
+            lo, hi = self.win(g)
+            rng = f"from {s} where time >= {lo} and time < {hi} group by time({2 * self.step}ns)"
+            out += [(f"gtime@{g}", f"select count({F}) {rng} fill(none)"),
+                    (f"fill0@{g}", f"select count({F}) {rng} fill(0)"),
+                    (f"fillp@{g}", f"select sum({F}) {rng} fill(previous)")]
+        return out
 
     def list_statements(self, inst):
         m = self.src(inst)
         if inst.startswith("rp1.") and self.drop_default_plain:
             m = m.split(".", 1)[1]
         return [("series", f"show series from {m}"), ("tkeys", f"show tag keys from {m}"),
-                ("thost", f"show tag values from {m} with key = host"), ("tregion", f"show tag values from {m} with key = region")]
+                ("thost", f"show tag values from {m} with key = host"), ("tregion", f"show tag values from {m} with key = region"),
+                ("scard", f"show series exact cardinality from {m}"), ("fkeys", f"show field keys from {m}")]
 
     def pred_text(self, p):
         k = p["k"]
@@ -300,8 +477,13 @@ class Conc:
 
     # ---- answers -> abstract canonical form ---------------------------------------------------------
     def abs_t(self, ts):
-        d = ts - self.base
-        return d // self.step if d % self.step == 0 else ("raw", ts)
+        for g in reversed(range(len(self.gbase))):
+            if ts >= self.gbase[g]:
+                d = ts - self.gbase[g]
+                if d % self.step == 0 and d // self.step < 10:
+                    return 10 * g + d // self.step
+                break
+        return ("raw", ts)
 
     def abs_v(self, x):
         if isinstance(x, bool) or not isinstance(x, (int, float)):
@@ -333,6 +515,7 @@ class Obs:
     def __init__(self):
         self.inst = {}      # inst -> shape -> canonical
         self.name = {}      # name -> shape -> canonical
+        self.meas = {}      # database-level listings
         self.wit = {}
         self.errors = []
 
@@ -357,13 +540,23 @@ class Behaviour(threading.Thread):
         self.dropped_any = False
         self.flaky = 0
         self.stmts = []
+        self.into_n = 0
+        self.phase_seen = {}   # racing step -> phase of the real catalogue when its statement was answered
+        self.bursts = 0
+        self.deferred = 0
+        self.race_attempts = 0
+        self.resync = 0
+        self.real_rp_extra = set()     # policies that exist for real although the behaviour has them absent (phase missed)
+        self.in_burst = False
+        self.burst_pending = None
 
     # ---- plumbing ----------------------------------------------------------------------------------
-    def q(self, text, db=None, post=False, nodb=False):
+    def q(self, text, db=None, post=False, nodb=False, **params):
         self.queries += 1
         for attempt in range(4):
             try:
-                st, body = self.srv.query(text, db=None if nodb else (db or self.c.db), epoch="ns", method="POST" if post else "GET")
+                st, body = self.srv.query(text, db=None if nodb else (db or self.c.db), epoch="ns", method="POST" if post else "GET",
+                                          **params)
                 return st, body
             except Exception as ex:   # connection reset while the server is busy
                 last = ex
@@ -382,19 +575,23 @@ class Behaviour(threading.Thread):
             err = f"HTTP {st} {body}"
         return err
 
+    def write_once(self, db, lines, rp):
+        try:
+            st, body = self.srv.write(db, lines, rp=rp)
+        except Exception as ex:
+            st, body = 0, str(ex)
+        return st, body.strip()[:200]
+
     def write(self, db, lines, rp):
         if rp != "rpz":
             self.stmts.append(f"write db={db} rp={rp}: " + " | ".join(lines))
         t0 = time.time()
         last = ""
         while time.time() - t0 < CONV:
-            try:
-                st, body = self.srv.write(db, lines, rp=rp)
-            except Exception as ex:
-                st, body = 0, str(ex)
+            st, body = self.write_once(db, lines, rp)
             if st == 204:
                 return ""
-            last = f"{st} {body.strip()[:200]}"
+            last = f"{st} {body}"
             time.sleep(0.4)
         return last
 
@@ -406,7 +603,52 @@ class Behaviour(threading.Thread):
                 return True
             if time.time() - t0 > bound:
                 return False
-            time.sleep(0.4)
+            time.sleep(0.2)
+
+    def catalogue(self):
+        """the catalogue as the meta node holds it (GET /getdata of the meta HTTP service): used to WAIT for the phases of a
+        two-phase drop and to record in which phase a racing statement was answered - never for a verdict"""
+        for attempt in range(4):
+            try:
+                with urllib.request.urlopen(f"http://127.0.0.1:{self.srv.base + 1}/getdata", timeout=20) as r:
+                    return json.loads(r.read().decode())
+            except Exception as ex:
+                last = ex
+                time.sleep(0.3)
+        raise vlib.Infra(f"meta /getdata failed: {last}")
+
+    def cat_db(self, db=None):
+        return (self.catalogue().get("Databases") or {}).get(db or self.c.db)
+
+    def db_phase(self):
+        d = self.cat_db()
+        return "none" if d is None else ("marked" if d.get("MarkDeleted") else "live")
+
+    def rp_phase(self, rp):
+        d = self.cat_db()
+        if d is None:
+            return "none"
+        r = (d.get("RetentionPolicies") or {}).get(rp)
+        return "none" if r is None else ("marked" if r.get("MarkDeleted") or d.get("MarkDeleted") else "live")
+
+    def mst_versions(self, inst):
+        """-> (current versioned name or None, [versioned names marked deleted]) of the measurement in the catalogue"""
+        rp, n = inst.split(".")
+        d = self.cat_db()
+        r = ((d or {}).get("RetentionPolicies") or {}).get(rp) or {}
+        cur, marked = None, []
+        for name, m in (r.get("Measurements") or {}).items():
+            if name.rsplit("_", 1)[0] != self.c.mst[n]:
+                continue
+            if m.get("MarkDeleted"):
+                marked.append(name)
+            else:
+                cur = name
+        return cur, marked
+
+    def mst_dirs(self, inst, versioned):
+        rp = inst.split(".")[0]
+        return glob.glob(os.path.join(self.srv.dir, "data", "data", self.c.db, "*", rp, "*", "tssp", versioned))
 
     # ---- database life cycle (with the reserved series-id range) ------------------------------------
     def create_database(self, db, slot=None):
@@ -414,8 +656,8 @@ class Behaviour(threading.Thread):
         a range of its own (ids start at the creation second; equal ids in different databases would let the stale
         delete set of one database's index searches hide series of the other: finding F-C13-3, shown by the witness)"""
         t1 = int(time.time())
-        for stmt in (f"create database {db} with duration 0s replication 1 name rp1",
-                     f"create retention policy rp2 on {db} duration 0s replication 1",
+        for stmt in (f"create database {db} with duration 0s replication 1{self.c.rp_opts['rp1']} name rp1",
+                     self.c.rp_ddl("rp2", db).replace(" default", ""),
                      f"create retention policy rpz on {db} duration 0s replication 1"):
             err = self.ddl(stmt)
             if err:
@@ -449,28 +691,51 @@ class Behaviour(threading.Thread):
         if err:
             raise vlib.Infra(f"witness write failed: {err}")
         self.wit_exp = {"series": [("a", "x"), ("b", "x"), ("c", "y")], "thost": ["a", "b", "c"], "cnt": 3}
+        # the SELECT ... INTO copies go to policy rp2 of the witness database: its shard groups exist beforehand (the write of
+        # an INTO statement does not wait for a shard group to be created)
+        err = self.write(self.c.wdb, [f"zinto,p=g{g} v=1i {self.c.t(10 * g + 1)}" for g in self.c.groups], "rp2")
+        if err:
+            raise vlib.Infra(f"witness write failed: {err}")
 
     # ---- reading -----------------------------------------------------------------------------------
+    def rows_from(self, series, what, obs, tags=False):
+        """rows (h, r, t, v) of an answer whose series carry the tags as columns (select *) or as series tags (group by *)"""
+        c = self.c
+        rows = []
+        for s in series:
+            cols = s["columns"]
+            tg = s.get("tags") or {}
+            try:
+                it, iv = cols.index("time"), cols.index(F)
+                ih = None if "host" in tg else cols.index("host")
+                ir = None if "region" in tg else cols.index("region")
+            except ValueError:
+                obs.errors.append(f"{what}: columns {cols} tags {tg}")
+                continue
+            if len(cols) != 2 + (ih is not None) + (ir is not None):
+                obs.errors.append(f"{what}: columns {cols}")
+                continue
+            for v in s["values"]:
+                rows.append((tg["host"] if ih is None else v[ih], tg["region"] if ir is None else v[ir], c.abs_t(v[it]), c.abs_v(v[iv])))
+        return rows
+
     def read_inst(self, inst, k, obs):
         stmts = self.c.inst_statements(inst, k)
         res = self.multi([t for _, t in stmts], self.c.db, obs, inst)
         if res is None:
             return
-        out = {}
+        out = {"gtime": {}, "fill0": {}, "fillp": {}}
         c = self.c
         for (name, text), (err, series) in zip(stmts, res):
             if err:
                 obs.errors.append(f"{inst}/{name}: {err}")
                 continue
-            if name in ROW_SHAPES:
-                rows = []
-                for s in series:
-                    cols = s["columns"]
-                    if cols != ["time", "host", "region", "v"]:
-                        obs.errors.append(f"{inst}/{name}: columns {cols}")
-                        continue
-                    for v in s["values"]:
-                        rows.append((v[1], v[2], c.abs_t(v[0]), c.abs_v(v[3])))
+            if name in ROW_SHAPES or name in ("desc", "last", "lim", "slim", "sub"):
+                rows = self.rows_from(series, f"{inst}/{name}", obs)
+                if name == "desc":
+                    ts = [x[2] for x in rows if not isinstance(x[2], tuple)]
+                    if any(ts[i] < ts[i + 1] for i in range(len(ts) - 1)):
+                        obs.errors.append(f"{inst}/desc: ORDER BY time DESC answered in the order {ts}")
                 out[name] = sorted(rows, key=skey)
             elif name == "gtag":
                 d = {}
@@ -479,12 +744,14 @@ class Behaviour(threading.Thread):
                     d.setdefault(h, [])
                     d[h] += [(c.abs_t(v[0]), c.abs_v(v[1])) for v in s["values"]]
                 out["gtag"] = {h: sorted(v, key=skey) for h, v in d.items()}
-            elif name == "gtime":
-                d = {}
+            elif name.startswith(("gtime@", "fill0@", "fillp@")):
+                d = out[name.split("@")[0]]
                 for s in series:
                     for v in s["values"]:
-                        d[c.abs_t(v[0])] = v[1]
-                out["gtime"] = d
+                        if name.startswith("fillp@"):
+                            d[c.abs_t(v[0])] = -1 if v[1] is None else c.abs_v(v[1])
+                        else:
+                            d[c.abs_t(v[0])] = v[1]
             elif name == "agg":
                 cnt, sm = 0, 0
                 for s in series:
@@ -498,13 +765,23 @@ class Behaviour(threading.Thread):
                     for v in s["values"]:
                         cg[h], sg[h] = v[1], c.abs_v(v[2])
                 out["cntg"], out["sumg"] = cg, sg
-            elif name == "cntre":
+            elif name in ("cntre", "subcnt"):
                 cnt = 0
                 for s in series:
                     for v in s["values"]:
                         cnt = v[1]
-                out["cntre"] = cnt
+                out[name] = cnt
+            elif name == "submax":
+                d = {}
+                for s in series:
+                    h = (s.get("tags") or {}).get("host")
+                    for v in s["values"]:
+                        d[h] = c.abs_v(v[1])
+                out["submax"] = d
         obs.inst[inst] = out
+        self.read_chunked(inst, obs)
+        if c.kind == "float":
+            self.read_prom(inst, obs)
 
     def multi(self, stmts, db, obs, what):
         """issue the statements in one request -> [(error, series)] per statement, or None"""
@@ -519,6 +796,121 @@ class Behaviour(threading.Thread):
                 return None
         return [res_series(rm.get(i)) for i in range(len(stmts))]
 
+    def read_chunked(self, inst, obs):
+        """the plain selection as a chunked answer: the rows are the concatenation of the chunks"""
+        self.queries += 1
+        try:
+            st, body = self.srv.http("GET", "/query", {"q": f"select * from {self.c.src(inst)}", "db": self.c.db, "epoch": "ns",
+                                                        "chunked": "true", "chunk_size": str(self.c.chunk_size)})
+        except Exception as ex:
+            obs.errors.append(f"{inst}/chunk: {ex}")
+            return
+        series, nchunks = [], 0
+        for line in body.splitlines():
+            if not line.strip():
+                continue
+            try:
+                doc = json.loads(line)
+            except Exception:
+                obs.errors.append(f"{inst}/chunk: {line[:200]}")
+                return
+            if st != 200 and any(e in line for e in EMPTY_ERRORS):
+                continue
+            for res in doc.get("results", []):
+                err, ser = res_series(res)
+                if err:
+                    obs.errors.append(f"{inst}/chunk: {err}")
+                    return
+                series += ser
+                nchunks += 1
+            if "results" not in doc and not any(e in line for e in EMPTY_ERRORS):
+                obs.errors.append(f"{inst}/chunk: HTTP {st} {line[:200]}")
+                return
+        for s in series:
+            if len(s["values"]) > self.c.chunk_size:
+                obs.errors.append(f"{inst}/chunk: a chunk of {len(s['values'])} rows with chunk_size={self.c.chunk_size}")
+        obs.inst[inst]["chunk"] = sorted(self.rows_from(series, f"{inst}/chunk", obs), key=skey)
+        self.batch.chunks += nchunks
+
+    def prom(self, path, params, what, obs):
+        self.queries += 1
+        try:
+            st, body = self.srv.http("GET", path, params)
+            doc = json.loads(body)
+        except Exception as ex:
+            obs.errors.append(f"{what}: {ex}")
+            return None
+        if st != 200 or doc.get("status") != "success":
+            if any(e in body for e in EMPTY_ERRORS):
+                return []
+            obs.errors.append(f"{what}: HTTP {st} {body[:200]}")
+            return None
+        return doc.get("data") or []
+
+    def read_prom(self, inst, obs):
+        """the same measurement through the Prometheus API (float field `value`): a range selector over the window of every
+        shard group returns the raw samples; /series and /label/host/values list the series"""
+        c = self.c
+        rp, n = inst.split(".")
+        metric = c.mst[n]
+        # two forms of the selector: with a label matcher that every series satisfies, and bare
+        for shape, sel in (("prom", metric + '{host=~"a|b|c"}'), ("promb", metric)):
+            rows = []
+            ok = True
+            for g in c.groups:
+                lo, hi = c.win(g)
+                w = (hi - lo + c.step) // 10 ** 9
+                data = self.prom("/api/v1/query", {"query": f"{sel}[{w}s]", "db": c.db, "rp": rp, "time": str(hi // 10 ** 9)},
+                                 f"{inst}/{shape}", obs)
+                if data is None:
+                    ok = False
+                    continue
+                for s in (data.get("result") if isinstance(data, dict) else []) or []:
+                    m = s.get("metric") or {}
+                    for ts, v in s.get("values") or []:
+                        try:
+                            rows.append((m.get("host"), m.get("region"), c.abs_t(int(round(float(ts) * 1000)) * 10 ** 6), c.abs_v(float(v))))
+                        except Exception:
+                            rows.append((m.get("host"), m.get("region"), ("raw", ts), ("raw", v)))
+            if ok:
+                obs.inst[inst][shape] = sorted(rows, key=skey)
+        lo, hi = c.win(c.groups[0])[0], c.win(c.groups[-1])[1]
+        rng = {"match[]": metric, "db": c.db, "rp": rp, "start": str(lo // 10 ** 9 - 1), "end": str(hi // 10 ** 9 + 1)}
+        data = self.prom("/api/v1/series", rng, f"{inst}/pseries", obs)
+        if data is not None:
+            obs.name.setdefault(inst, {})["pseries"] = sorted(((m.get("host"), m.get("region")) for m in data), key=skey)
+        data = self.prom("/api/v1/label/host/values", rng, f"{inst}/phost", obs)
+        if data is not None:
+            obs.name.setdefault(inst, {})["phost"] = sorted(data, key=skey)
+
+    def read_into(self, inst, si, obs):
+        """SELECT * INTO a fresh copy: the copy holds exactly the rows the source returns"""
+        c = self.c
+        self.into_n += 1
+        tgt = f"cp{si}x{self.into_n}"
+        full = f'"{c.wdb}"."rp2"."{tgt}"'
+        st, body = self.q(f"select * into {full} from {c.src(inst)} group by *", post=True)
+        rm = result_map(body) or {}
+        err, series = res_series(rm.get(0))
+        if err:
+            obs.errors.append(f"{inst}/into: {err}")
+            return
+        written = next((v[1] for s in series for v in s["values"]), 0)
+        rows = []
+        t0 = time.time()
+        while True:
+            res = self.multi([f"select * from rp2.{tgt}"], c.wdb, obs, f"{inst}/into")
+            if res is None:
+                return
+            err, series = res[0]
+            rows = sorted(self.rows_from(series, f"{inst}/into", obs), key=skey) if not err else []
+            if len(rows) >= written or time.time() - t0 > 10:
+                break
+            time.sleep(0.5)
+        obs.inst.setdefault(inst, {})["into"] = rows
+        if written != len(rows):
+            obs.errors.append(f"{inst}/into: {written} rows reported written, the copy holds {len(rows)}")
+
     @staticmethod
     def parse_listing(kind, series):
         if kind == "series":
@@ -532,16 +924,27 @@ class Behaviour(threading.Thread):
             return sorted(v[0] for s in series for v in s["values"])
         if kind in ("thost", "tregion"):
             return sorted(v[1] for s in series for v in s["values"])
+        if kind == "scard":
+            return sum(v[0] for s in series for v in s["values"])
+        if kind == "fkeys":
+            return sorted(v[0] for s in series for v in s["values"])
+        if kind in ("meas", "measre"):
+            return sorted(v[0] for s in series for v in s["values"])
         return next((v[1] for s in series for v in s["values"]), 0)      # cnt
 
     def read_names(self, obs):
+        mm, nn = self.c.mst["m"], self.c.mst["n"]
         stmts = [(n, k, t) for n in INSTS for k, t in self.c.list_statements(n)]
+        stmts += [("db", "meas", "show measurements"), ("db", "measre", f"show measurements with measurement =~ /^({mm}|{nn})$/")]
         res = self.multi([t for _, _, t in stmts], self.c.db, obs, "listing")
         if res is None:
             return
         for (n, k, _), (err, series) in zip(stmts, res):
             if err:
                 obs.errors.append(f"{n}/{k}: {err}")
+            elif n == "db":
+                names = self.parse_listing(k, series)
+                obs.meas[k] = [x for x in names if x in (mm, nn)] if k == "meas" else names
             else:
                 obs.name.setdefault(n, {})[k] = self.parse_listing(k, series)
 
@@ -556,7 +959,7 @@ class Behaviour(threading.Thread):
             else:
                 obs.wit[k] = self.parse_listing(k, series)
 
-    def read_all(self, k, insts=INSTS, names=True, witness=True):
+    def read_all(self, k, insts=INSTS, names=True, witness=True, into=None, si=0):
         obs = Obs()
         for inst in insts:
             self.read_inst(inst, k, obs)
@@ -564,10 +967,12 @@ class Behaviour(threading.Thread):
             self.read_names(obs)
         if witness:
             self.read_witness(obs)
+        if into:
+            self.read_into(into, si, obs)
         return obs
 
     # ---- judging -----------------------------------------------------------------------------------
-    def candidates(self, imp_i, shape, k, live_d):
+    def candidates(self, imp_i, shape, k, live_d, flags):
         """answers the as-implemented model predicts for `shape` of one instance: [(answer, finding ids)]"""
         live = [rt(r) for r in imp_i["live"]]
         gm = [rt(r) for r in imp_i["gm"]]
@@ -582,7 +987,12 @@ class Behaviour(threading.Thread):
         outs = []
         why = {CAUSE[c] for c in imp_i["cause"]} or {"F-C13-4"}
         if base_i != base_d:
-            outs.append((base_i, set(why)))             # the as-implemented rows differ: cross-policy drop / log replay
+            outs.append((base_i, set(why)))             # the as-implemented rows differ: cross-policy drop / unwired index group ...
+        if shape == "slim" and flags["slimit"] == "yes":
+            # SLIMIT is ignored: every series comes back
+            outs.append((shapes_of(live_d, k)["plain"], {"F-C13-12"}))
+            if live != live_d:
+                outs.append((shapes_of(live, k)["plain"], {"F-C13-12"} | why))
         if leak and (gm or gq):
             by_series = {}
             for r in gq:
@@ -610,6 +1020,7 @@ class Behaviour(threading.Thread):
         if obs.errors:
             for er in obs.errors[:3]:
                 divs.append({"scope": "query", "shape": "error", "real": er, "exp": "an answer", "known": None, "extra": False})
+        flags = e["imp"]["flags"]
         for inst in INSTS:
             if inst not in obs.inst:
                 continue
@@ -624,13 +1035,16 @@ class Behaviour(threading.Thread):
                 if real[s] == exp[s]:
                     continue
                 known = None
-                for ans, ids in self.candidates(imp_i, s, k, live_d):
+                for ans, ids in self.candidates(imp_i, s, k, live_d, flags):
                     if real[s] == ans:
                         known = set(ids)
                         break
+                if known is None and s in ("prom", "promb") and real.get("plain") == exp["plain"] and all(x in exp[s] for x in real[s]):
+                    # predicate of F-C13-14: a PromQL selector over several series returns live samples only (right series, time
+                    # and value) but not all of them, while the plain selection is complete in the same reading
+                    known = {"F-C13-14"}
                 divs.append({"scope": inst, "shape": s, "real": real[s], "exp": exp[s], "known": known,
                              "extra": has_extra(real[s], exp[s])})
-        flags = e["imp"]["flags"]
         impi = e["imp"]["inst"]
 
         def ser(x):
@@ -663,10 +1077,13 @@ class Behaviour(threading.Thread):
                 known = None
 
                 def proj(keys):
-                    return {"series": keys, "thost": sorted({x[0] for x in keys}), "tregion": sorted({x[1] for x in keys}),
-                            "tkeys": ["host", "region"] if keys else []}[s]
+                    return {"series": keys, "pseries": keys, "thost": sorted({x[0] for x in keys}), "phost": sorted({x[0] for x in keys}),
+                            "tregion": sorted({x[1] for x in keys}), "scard": len(keys),
+                            "tkeys": ["host", "region"] if keys else []}.get(s)
                 if s == "tkeys" and flags["schema"] == "yes" and me["ex"] == "yes" and real[s] == ["host", "region"]:
                     known = {"F-C13-5"}
+                elif s == "fkeys":
+                    known = None
                 elif real[s] == proj(own) and own != exp["series"]:
                     known = {CAUSE[c] for c in me["cause"]} or {"F-C13-4"}
                 elif flags["listrp"] == "yes" and real[s] == proj(union):
@@ -675,6 +1092,14 @@ class Behaviour(threading.Thread):
                     known = {"F-C13-8"} | cross | ({"F-C13-6"} if union != own else set())
                 divs.append({"scope": inst, "shape": s, "real": real[s], "exp": exp[s], "known": known,
                              "extra": has_extra(real[s], exp[s])})
+        # the measurements of the database
+        mexp = sorted(self.c.mst[n] for n in e["exp"]["meas"])
+        for s in ("meas", "measre"):
+            if s in obs.meas:
+                self.shape_checks += 1
+                if obs.meas[s] != mexp:
+                    divs.append({"scope": "db", "shape": s, "real": obs.meas[s], "exp": mexp, "known": None,
+                                 "extra": has_extra(obs.meas[s], mexp)})
         if obs.wit:
             for s, exp in self.wit_exp.items():
                 if s not in obs.wit:
@@ -691,7 +1116,7 @@ class Behaviour(threading.Thread):
                              "extra": has_extra(real, exp)})
         return divs
 
-    def settle(self, si, e, nochange):
+    def settle(self, si, e, nochange, into=None):
         """read the matrix until it equals the expectation (or what an open finding predicts) or the bound expires"""
         k = e["exp"]["k"]
         self.exp_c = {i: canon_exp(e["exp"]["inst"][i]["sel"]) for i in INSTS}
@@ -700,13 +1125,16 @@ class Behaviour(threading.Thread):
         for i in INSTS:
             mine = shapes_of(self.exp_c[i]["plain"], k)
             if mine != self.exp_c[i]:
-                raise vlib.Infra(f"shape operators of DropSem.tla and of the replay differ: {mine} vs {self.exp_c[i]}")
+                bad = [s for s in mine if mine[s] != self.exp_c[i].get(s)]
+                raise vlib.Infra(f"shape operators of DropSem.tla and of the replay differ on {bad}: "
+                                 f"{ {s: (mine[s], self.exp_c[i].get(s)) for s in bad} }")
         t0 = time.time()
         first = True
         while True:
-            obs = self.read_all(k)
+            obs = self.read_all(k, into=into, si=si)
             divs = self.compare(obs, e)
-            open_ = [d for d in divs if not d["known"]]
+            # an incomplete PromQL answer counts as the finding only if it lasts (new series become searchable after 1-2 s)
+            open_ = [d for d in divs if not d["known"] or (d["known"] == {"F-C13-14"} and time.time() - t0 < 6)]
             if not open_:
                 break
             if first and nochange and any(d["extra"] for d in open_):
@@ -722,7 +1150,104 @@ class Behaviour(threading.Thread):
             (self.known if d["known"] else self.divs).append(d)
         return not open_
 
+    def div(self, si, e, scope, shape, real, exp, known=None, extra=False):
+        d = {"scope": scope, "shape": shape, "real": real, "exp": exp, "known": known, "step": si, "action": e["a"],
+             "args": e["args"], "extra": extra}
+        (self.known if known else self.divs).append(d)
+
+    # ---- two-phase drops ---------------------------------------------------------------------------
+    def race(self, e, stmt, rp_of_race):
+        """the drop statement with writes in flight: the rows of `race` are sent again and again from shortly before the
+        statement until after its acknowledgement.  A write SENT after the acknowledgement must be refused (there is no
+        fresh object it could go to); whatever happened to the others, none of the rows may be readable afterwards
+        (they are not part of the expectation of this step)."""
+        c = self.c
+        race = e["args"]["race"]
+        lines = c.lines(race["i"], race["rows"]) if race["rows"] else []
+        log = []
+        stop = threading.Event()
+
+        def hammer():
+            while not stop.is_set():
+                for ln in lines:
+                    t1 = time.time()
+                    st, body = self.write_once(c.db, [ln], rp_of_race)
+                    log.append((t1, time.time(), st, body, ln))
+                time.sleep(0.004)
+        th = threading.Thread(target=hammer, daemon=True)
+        if lines:
+            self.stmts.append(f"in flight during the next statement, rp={rp_of_race}: " + " | ".join(lines))
+            th.start()
+            time.sleep(self.c.rnd.choice([0.01, 0.03, 0.08]))
+        err = self.ddl(stmt)
+        t_ack = time.time()
+        if lines:
+            time.sleep(0.03 if self.in_burst else 0.25)
+            stop.set()
+            th.join(timeout=30)
+        self.race_attempts += len(log)
+        late = [x for x in log if x[0] > t_ack and x[2] == 204]
+        return err, late, len(log)
+
+    def wait_phase(self, si, e, what, fn):
+        if not self.poll(fn, f"{e['a']} phase"):
+            self.div(si, e, what, "phase", "background deletion did not get there within the bound", e["a"], extra=True)
+
+    def burst_plan(self, si):
+        """the racing steps that follow the mark at si directly"""
+        e = self.hist[si]
+        out = []
+        j = si + 1
+        while j < len(self.hist):
+            f = self.hist[j]
+            if f["a"] in RACING or (f["a"] == "Write" and e["a"] == "DropMeasurementMark" and f["args"]["i"] == e["args"]["i"]
+                                    and not out):
+                out.append(j)
+                j += 1
+            else:
+                break
+        return out
+
     # ---- actions -----------------------------------------------------------------------------------
+    def drop_stmt(self, e):
+        c = self.c
+        a, args = e["a"], e["args"]
+        if a in ("DropRP", "DropRPMark"):
+            return f"drop retention policy {args['rp']} on {c.db}"
+        if a in ("DropDatabase", "DropDatabaseMark"):
+            return f"drop database {c.db}"
+        src = c.src(args["i"])
+        if args["i"].startswith("rp1.") and c.drop_default_plain:
+            src = src.split(".", 1)[1]
+        return f"drop measurement {src}"
+
+    def series_drop_stmt(self, e):
+        c = self.c
+        a, args = e["a"], e["args"]
+        w = c.pred_text(args["p"])
+        src = c.src(args["i"])
+        if args["i"].startswith("rp1.") and c.drop_default_plain:
+            src = src.split(".", 1)[1]
+        if a == "DropSeriesTime":
+            tcond = f"time {'<' if args['op'] == 'lt' else '>'} {c.t(args['t'])}"
+            w = f"{w} and {tcond}" if w else tcond
+        return f"drop series from {src}" + (f" where {w}" if w else "")
+
+    def after_drop_ack(self, si, e, err):
+        a, args = e["a"], e["args"]
+        if a in ("DropSeries", "DropSeriesTime"):
+            self.dropped_any = True
+            if a == "DropSeries" and err:
+                self.div(si, e, args["i"], "statement", f"{self.series_drop_stmt(e)}: {err}", "acknowledged")
+            return
+        if err:
+            self.div(si, e, args.get("rp") or args.get("i") or "db", "statement", f"{self.drop_stmt(e)}: {err}", "acknowledged")
+        if a in ("DropDatabase", "DropDatabaseMark"):
+            self.db_exists = False
+            self.real_rp_extra = set()
+        if a in ("DropRP", "DropRPMark"):
+            self.real_rp_extra.discard(args["rp"])
+
     def local(self, si, e):
         c = self.c
         a, args = e["a"], e["args"]
@@ -734,94 +1259,282 @@ class Behaviour(threading.Thread):
             if err:
                 self.divs.append({"scope": inst, "shape": "write", "real": err, "exp": "204", "known": None, "step": si, "action": a,
                                   "args": args, "extra": False})
-        elif a == "DropSeries":
-            w = c.pred_text(args["p"])
+        elif a == "WriteRefused":
+            # the database / policy of the measurement is gone (or being deleted): the write must not be acknowledged
             inst = args["i"]
-            src = c.src(inst)
-            if inst.startswith("rp1.") and c.drop_default_plain:
-                src = src.split(".", 1)[1]
-            stmt = f"drop series from {src}" + (f" where {w}" if w else "")
+            rp = inst.split(".")[0]
+            lines = c.lines(inst, args["rows"])
+            self.stmts.append(f"write (to be refused) db={db} rp={rp}: " + " | ".join(lines))
+            st, body = self.write_once(db, lines, rp)
+            if st == 204 and rp in self.real_rp_extra:
+                note = "phase missed"        # the policy exists for real (an early CREATE came after the deletion had finished)
+            elif st == 204 and self.burst_pending is not None:
+                self.burst_pending.append((si, e, inst, rp))      # judged once the acknowledged creates of the burst are
+            elif st == 204:
+                self.div(si, e, inst, "write", "204 (acknowledged)", "refused: the policy / database was dropped and not re-created",
+                         extra=True)
+        elif a in ("DropSeries", "DropSeriesTime"):
+            inst = args["i"]
+            stmt = self.series_drop_stmt(e)
             err = self.ddl(stmt)
+            self.batch.series_drop_ack = max(self.batch.series_drop_ack, time.time())
             self.dropped_any = True
-            if err:
+            if a == "DropSeries" and err:
                 self.divs.append({"scope": inst, "shape": "statement", "real": f"{stmt}: {err}", "exp": "acknowledged", "known": None,
                                   "step": si, "action": a, "args": args, "extra": False})
+            if a == "DropSeriesTime" and not err:
+                # acknowledged although the design refuses a time-bounded DROP SERIES: the reads below decide what it did
+                note = "acknowledged"
         elif a == "DropSeriesNoFrom":
             stmt = f"drop series where {c.pred_text(args['p']) or 'host = ' + chr(39) + 'a' + chr(39)}"
             err = self.ddl(stmt)
             if not err:
                 # acknowledged although the specification (as the executor) rejects it: the reads below decide
                 note = "acknowledged"
-        elif a == "DropMeasurement":
-            inst = args["i"]
-            src = c.src(inst)
-            if inst.startswith("rp1.") and c.drop_default_plain:
-                src = src.split(".", 1)[1]
-            err = self.ddl(f"drop measurement {src}")
-            if err:
-                self.divs.append({"scope": inst, "shape": "statement", "real": f"drop measurement {src}: {err}", "exp": "acknowledged",
-                                  "known": None, "step": si, "action": a, "args": args, "extra": False})
-        elif a == "DropRP":
+        elif a == "Unsupported":
+            src = c.src(args["i"])
+            stmt = {"Delete": f"delete from {src} where host = 'a'",
+                    "DeleteTime": f"delete from {src} where time < {c.t(3)}",
+                    "DropShard": "drop shard 1"}[args["what"]]
+            err = self.ddl(stmt)
+            if not err:
+                note = "acknowledged"
+        elif a in ("DropMeasurement", "DropMeasurementMark"):
+            err = self.ddl(self.drop_stmt(e))
+            self.after_drop_ack(si, e, err)
+        elif a in ("DropRP", "DropRPMark"):
             rp = args["rp"]
-            err = self.ddl(f"drop retention policy {rp} on {db}")
-            if err:
-                self.divs.append({"scope": rp, "shape": "statement", "real": err, "exp": "acknowledged", "known": None, "step": si,
-                                  "action": a, "args": args, "extra": False})
-            # two-phase drop: wait (bounded) until the catalogue no longer lists the policy
-
-            def gone():
-                st, body = self.q(f"show retention policies on {db}")
-                names = [v[0] for s in (result_map(body) or {}).get(0, {}).get("series", []) or [] for v in s["values"]]
-                return rp not in names
-            if not self.poll(gone, "DropRP catalogue"):
-                self.divs.append({"scope": rp, "shape": "catalogue", "real": "policy still listed", "exp": "gone", "known": None,
-                                  "step": si, "action": a, "args": args, "extra": True})
+            if a == "DropRPMark" and args["race"]["rows"]:
+                err, late, n = self.race(e, self.drop_stmt(e), rp)
+                if late:
+                    self.div(si, e, rp, "race", f"{len(late)} writes sent after the acknowledgement of the drop were acknowledged: "
+                             f"{late[0][4]}", "refused", extra=True)
+            else:
+                err = self.ddl(self.drop_stmt(e))
+            self.after_drop_ack(si, e, err)
+            if a == "DropRP":
+                # two-phase drop: wait (bounded) until the catalogue no longer lists the policy
+                if not self.poll(lambda: self.rp_listed(rp) is False, "DropRP catalogue"):
+                    self.div(si, e, rp, "catalogue", "policy still listed", "gone", extra=True)
         elif a == "CreateRP":
             rp = args["rp"]
-            err = self.ddl(f"create retention policy {rp} on {db} duration 0s replication 1" + (" default" if rp == "rp1" else ""))
+            err = self.ddl(c.rp_ddl(rp))
             if err:
                 raise vlib.Infra(f"create retention policy: {err}")
-        elif a == "DropDatabase":
-            err = self.ddl(f"drop database {db}")
-            if err:
-                self.divs.append({"scope": "db", "shape": "statement", "real": err, "exp": "acknowledged", "known": None, "step": si,
-                                  "action": a, "args": args, "extra": False})
-
-            def gone():
-                st, body = self.q("show databases", nodb=True)
-                names = [v[0] for s in (result_map(body) or {}).get(0, {}).get("series", []) or [] for v in s["values"]]
-                return db not in names
-            if not self.poll(gone, "DropDatabase catalogue"):
-                self.divs.append({"scope": "db", "shape": "catalogue", "real": "database still listed", "exp": "gone", "known": None,
-                                  "step": si, "action": a, "args": args, "extra": True})
-            self.db_exists = False
+            self.real_rp_extra.discard(rp)
+        elif a in ("DropDatabase", "DropDatabaseMark"):
+            if a == "DropDatabaseMark" and args["race"]["rows"]:
+                err, late, n = self.race(e, self.drop_stmt(e), args["race"]["i"].split(".")[0])
+                if late:
+                    self.div(si, e, "db", "race", f"{len(late)} writes sent after the acknowledgement of the drop were acknowledged: "
+                             f"{late[0][4]}", "refused", extra=True)
+            else:
+                err = self.ddl(self.drop_stmt(e))
+            self.after_drop_ack(si, e, err)
+            if a == "DropDatabase":
+                if not self.poll(lambda: self.db_listed() is False, "DropDatabase catalogue"):
+                    self.div(si, e, "db", "catalogue", "database still listed", "gone", extra=True)
         elif a == "CreateDatabase":
             self.create_database(db)
             self.db_exists = True
+        # ---- the internal steps of a two-phase drop: wait until the real system has got there ----------------------
+        elif a == "DropRPStore":
+            rp = args["rp"]
+            self.wait_phase(si, e, rp, lambda: self.rp_phase(rp) == "none" or rp in self.real_rp_extra or
+                            not glob.glob(os.path.join(self.srv.dir, "data", "data", db, "*", rp)))
+        elif a == "DropRPFinish":
+            rp = args["rp"]
+            self.wait_phase(si, e, rp, lambda: rp in self.real_rp_extra or self.rp_phase(rp) == "none")
+        elif a == "DropDatabaseStore":
+            self.wait_phase(si, e, "db", lambda: self.db_phase() == "none" or not os.path.exists(os.path.join(self.srv.dir, "data", "data", db)))
+        elif a == "DropDatabaseFinish":
+            self.wait_phase(si, e, "db", lambda: self.db_phase() == "none")
+        elif a == "DropMeasurementStore":
+            inst = args["i"]
+            self.wait_phase(si, e, inst, lambda: all(not self.mst_dirs(inst, v) for v in self.mst_versions(inst)[1]))
+        elif a == "DropMeasurementFinish":
+            inst = args["i"]
+            self.wait_phase(si, e, inst, lambda: not self.mst_versions(inst)[1])
+        # ---- creates that meet an object being deleted ---------------------------------------------------------------
+        elif a == "CreateRPBusy":
+            note = self.create_rp_busy(si, e)
+        elif a == "CreateDatabaseBusy":
+            stmt = f"create database {db} with duration 0s replication 1{c.rp_opts['rp1']} name rp1"
+            err = self.ddl(stmt)
+            self.phase_seen[si] = "refused" if err else self.db_phase()
+            if not err:
+                # acknowledged: wait until no deletion of that name is under way, then look whether the database is there
+                self.poll(lambda: self.db_phase() != "marked", "CreateDatabaseBusy settle")
+                time.sleep(0.3)
+                if self.db_phase() != "live":
+                    self.div(si, e, "db", "create", "acknowledged, and the database is gone once the background deletion has finished",
+                             "refused, or a database that stays")
+                else:
+                    # the deletion had already finished: the database exists again (fresh).  Re-synchronise with the behaviour.
+                    self.resync += 1
+                    err = self.ddl(f"drop database {db}")
+                    if err or not self.poll(lambda: self.db_phase() == "none", "resync"):
+                        raise vlib.Infra(f"could not re-synchronise after an early CREATE DATABASE: {err}")
+                    note = "phase missed"
         return note
+
+    def rp_listed(self, rp):
+        st, body = self.q(f"show retention policies on {self.c.db}")
+        names = [v[0] for s in (result_map(body) or {}).get(0, {}).get("series", []) or [] for v in s["values"]]
+        return rp in names
+
+    def db_listed(self):
+        st, body = self.q("show databases", nodb=True)
+        names = [v[0] for s in (result_map(body) or {}).get(0, {}).get("series", []) or [] for v in s["values"]]
+        return self.c.db in names
+
+    def create_rp_busy(self, si, e, judge=True):
+        """CREATE RETENTION POLICY for a name whose policy is being deleted.  Refused = the design.  Acknowledged: either the
+        deletion had already finished and the policy exists afresh (the phase was missed: the replay drops it again to stay
+        in step with the behaviour), or the acknowledged policy is gone a moment later (the as-implemented prediction)."""
+        rp = e["args"]["rp"]
+        err = self.ddl(self.c.rp_ddl(rp))
+        # the phase is sampled AFTER the answer (sampling takes time): "marked" = the deletion was still under way
+        self.phase_seen[si] = "refused" if err else self.rp_phase(rp)
+        if err:
+            return "refused"
+        if not judge:
+            return "acknowledged"
+        return self.judge_rp_ack(si, e)
+
+    def judge_rp_ack(self, si, e):
+        rp = e["args"]["rp"]
+        # wait until no deletion of that name is under way any more, then look whether the acknowledged policy is there
+        self.poll(lambda: self.rp_phase(rp) != "marked", "CreateRPBusy settle")
+        time.sleep(0.3)
+        if self.rp_phase(rp) == "live":
+            self.real_rp_extra.add(rp)
+            self.resync += 1
+            return "phase missed"
+        busy = e["imp"]["flags"]["busyack"] == "yes" and e["imp"]["rp"][rp]["ackc"] == "yes"
+        self.div(si, e, rp, "create", "acknowledged, and the policy is gone once the background deletion has finished",
+                 "refused, or a policy that stays", known={"F-C13-11"} if busy else None, extra=False)
+        return "acknowledged and lost"
+
+    def resync_rp(self, rp):
+        """drop a policy that exists for real although the behaviour has it absent (an early CREATE met a finished deletion)"""
+        if rp in self.real_rp_extra:
+            err = self.ddl(f"drop retention policy {rp} on {self.c.db}")
+            if err or not self.poll(lambda: self.rp_phase(rp) == "none", "resync"):
+                raise vlib.Infra(f"could not re-synchronise after an early CREATE RETENTION POLICY: {err}")
+            self.real_rp_extra.discard(rp)
+
+    def burst(self, si, plan):
+        """a mark and the racing steps that follow it, issued back to back (no reads in between: the background deletion takes
+        well under a second); the statement outcomes are judged per step, the read matrix after the last step"""
+        self.bursts += 1
+        e = self.hist[si]
+        self.in_burst = True
+        try:
+            self.local(si, e)
+        finally:
+            self.in_burst = False
+        acks = []
+        self.burst_pending = []
+        try:
+            for j in plan:
+                f = self.hist[j]
+                if f["a"] == "CreateRPBusy":
+                    acks.append((j, self.create_rp_busy(j, f, judge=False)))
+                else:
+                    self.local(j, f)
+                    if f["a"] == "Write":
+                        self.phase_seen[j] = "marked" if self.mst_versions(f["args"]["i"])[1] else "none"
+                    elif f["a"] == "WriteRefused":
+                        self.phase_seen[j] = self.rp_phase(f["args"]["i"].split(".")[0]) if self.db_phase() == "live" else self.db_phase()
+            pend = self.burst_pending
+        finally:
+            self.burst_pending = None
+        for j, r in acks:
+            if r == "acknowledged":
+                self.judge_rp_ack(j, self.hist[j])
+        for j, f, inst, rp in pend:
+            # acknowledged although the behaviour has the policy dropped: fine only if an early CREATE of this burst met a finished
+            # deletion (the policy exists afresh, the rows go with the re-synchronising drop below)
+            if rp not in self.real_rp_extra:
+                self.div(j, f, inst, "write", "204 (acknowledged)", "refused: the policy / database was dropped and not re-created",
+                         extra=True)
+        for rp in list(self.real_rp_extra):
+            self.resync_rp(rp)
 
     def run(self):
         try:
-            for si, e in enumerate(self.hist):
+            si = 0
+            n = len(self.hist)
+            while si < n:
+                e = self.hist[si]
                 a = e["a"]
-                if a in ("Flush", "Compact", "RestartClean", "RestartKill"):
+                last = si
+                into = None
+                if a in GLOBALS:
                     self.batch.arrive(self, a)
+                    self.stmts.append(a)
                     nochange = True
+                elif (a in MARKS and si + 1 < n and self.hist[si + 1]["a"].startswith("Restart")) or \
+                        (a in ("DropSeries", "DropSeriesTime") and si + 1 < n and self.hist[si + 1]["a"] == "RestartKill"):
+                    # the statement is issued by the batch right before it stops the server: the restart meets the
+                    # background deletion under way / the kill comes before the record of the DROP SERIES is on disk
+                    # (judged after the restart)
+                    self.deferred += 1
+                    nxt = self.hist[si + 1]
+                    stmt = self.drop_stmt(e) if a in MARKS else self.series_drop_stmt(e)
+                    res = self.batch.arrive(self, nxt["a"], defer=(stmt, si))
+                    self.stmts += ["   (the statement above was acknowledged right before the server was stopped)", nxt["a"]]
+                    self.after_drop_ack(si, e, res)
+                    last = si + 1
+                    nochange = False
+                elif a in MARKS and self.burst_plan(si):
+                    plan = self.burst_plan(si)
+                    self.burst(si, plan)
+                    last = plan[-1]
+                    nochange = False
                 else:
                     self.local(si, e)
-                    nochange = a in ("DropSeriesNoFrom", "CreateRP", "CreateDatabase")
-                if a in ("Flush", "Compact", "RestartClean", "RestartKill"):
-                    self.stmts.append(a)
-                self.settle(si, e, nochange)
-                self.steps_done += 1
+                    for rp in list(self.real_rp_extra):
+                        if a != "WriteRefused":
+                            self.resync_rp(rp)
+                    nochange = a in ("DropSeriesNoFrom", "CreateRP", "CreateDatabase", "Unsupported", "WriteRefused", "CreateRPBusy",
+                                     "CreateDatabaseBusy", "DropRPStore", "DropRPFinish", "DropDatabaseStore", "DropDatabaseFinish",
+                                     "DropMeasurementStore", "DropMeasurementFinish") or \
+                        (a == "DropSeriesTime" and e["imp"]["flags"]["timedrop"] != "yes")
+                    if a in ("DropSeries", "DropSeriesTime", "DropMeasurement", "DropMeasurementMark") or si == n - 1:
+                        # SELECT ... INTO from the measurement the statement named (or, at the end, from any)
+                        tgt = e["args"]["i"] if isinstance(e["args"], dict) and "i" in e["args"] else self.c.rnd.choice(INSTS)
+                        if e["exp"]["inst"][tgt]["sel"]["plain"] or e["imp"]["inst"][tgt]["live"]:
+                            into = tgt
+                self.settle(last, self.hist[last], nochange, into=into)
+                self.steps_done += last - si + 1
+                si = last + 1
                 if self.batch.abort:
                     break
+            self.check_topology()
         except BaseException as ex:   # noqa
             self.error = ex
             if isinstance(ex, vlib.Infra):
                 self.batch.abort = True
         finally:
             self.batch.finished(self)
+
+    def check_topology(self):
+        """the index groups the real catalogue holds are the ones the behaviour has (the time placement of the replay is as
+        modelled); a mismatch is a defect of the replay, not a verdict"""
+        if self.steps_done < len(self.hist) or not self.db_exists:
+            return
+        imp = self.hist[-1]["imp"]
+        d = self.cat_db()
+        for rp in ("rp1", "rp2"):
+            r = ((d or {}).get("RetentionPolicies") or {}).get(rp)
+            if r is None or r.get("MarkDeleted") or imp["inst"][f"{rp}.m"]["usable"] != "yes":
+                continue
+            real = len([g for g in (r.get("IndexGroups") or []) if not any(ix.get("MarkDelete") for ix in g.get("Indexes") or [])])
+            if real != len(imp["rp"][rp]["ig"]):
+                raise vlib.Infra(f"{self.c.db} {rp}: the catalogue has {real} index groups, the behaviour {len(imp['rp'][rp]['ig'])} "
+                                 f"({self.c.rp_opts[rp]!r}, shared={self.c.shared})")
 
 
 def has_extra(real, exp):
@@ -871,6 +1584,11 @@ class Batch:
         self.merge_observed = 0
         self.srv = None
         self.infra = None
+        self.chunks = 0
+        self.deferred = {}          # behaviour -> (statement, step): issued right before the server is stopped
+        self.defer_result = {}
+        self.deferred_done = 0
+        self.series_drop_ack = 0.0   # when the last DROP SERIES that is NOT followed by the kill was acknowledged
 
     def alloc(self):
         with self.lock:
@@ -890,15 +1608,39 @@ class Batch:
     def ooo_files(self):
         return glob.glob(os.path.join(self.srv.dir, "data", "data", "c13*", "*", "rp[12]", "*", "tssp", "*", "out-of-order", "*.tssp"))
 
-    def arrive(self, b, kind):
+    def arrive(self, b, kind, defer=None):
         with self.lock:
             r = self.round
             self.waiting[b] = kind
+            if defer:
+                self.deferred[b] = defer
             self.lock.notify_all()
             while self.round == r and not self.abort:
                 self.lock.wait(1.0)
         if self.abort:
             raise vlib.Infra("batch aborted")
+        return self.defer_result.pop(b, "")
+
+    def run_deferred(self):
+        """the drop statements of the behaviours whose mark is followed by the restart: all at once, then the server is
+        stopped while the background deletions are under way"""
+        todo, self.deferred = dict(self.deferred), {}
+        if not todo:
+            return
+
+        def one(b, stmt):
+            try:
+                self.defer_result[b] = b.ddl(stmt)
+            except BaseException as ex:   # noqa
+                self.defer_result[b] = f"exception {ex}"
+            if stmt.startswith("drop database"):
+                b.db_exists = False
+        ths = [threading.Thread(target=one, args=(b, stmt)) for b, (stmt, si) in todo.items()]
+        for t in ths:
+            t.start()
+        for t in ths:
+            t.join()
+        self.deferred_done += len(todo)
 
     def finished(self, b):
         with self.lock:
@@ -925,6 +1667,11 @@ class Batch:
                 time.sleep(1.0)
             self.compaction(False)
         else:
+            if kind == "RestartKill":
+                # the record of a DROP SERIES is on disk a second or two after the acknowledgement (finding F-C13-13): a kill
+                # meets that window only where the behaviour has the kill directly after the statement (deferred, below)
+                time.sleep(max(0.0, DURABLE_AFTER - (time.time() - self.series_drop_ack)))
+            self.run_deferred()
             t_kill = int(time.time())
             self.srv.restart(kill=(kind == "RestartKill"), wait=180)
             self.compaction(False)
@@ -1059,12 +1806,24 @@ def report(batches, stats, exh, seeds, tier, seed, t0):
         "distinct_nontrivial": len({json.dumps([[e["a"], e["args"]] for e in x.hist], sort_keys=True) for x in behaviours}),
         "rule": "behaviours of DropSem.tla (seeded TLC simulation, one behaviour per simulated trace, all behaviours of a batch share a "
                 "skeleton of global actions); distinct = distinct action sequences; evaluations = read-shape answers compared "
-                "(15 selection shapes + 4 listings for each of 3 measurement instances + 3 witness reads, after every action, final poll)",
+                f"({len(ALL_SHAPES)} selection shapes + {len(LIST_SHAPES)} listings for each of 3 measurement instances (the PromQL ones "
+                "only where the field is a float) + 2 database listings + 3 witness reads, after every action, final poll)",
         "tlc": {"exh": exh, "sim": stats["sim"], "mutation_seeds": seeds},
         "steps_replayed": sum(x.steps_done for x in behaviours),
         "actions_replayed": acts,
         "queries": sum(x.queries for x in behaviours),
-        "read_shape_matrix": {"selections per measurement instance": ALL_SHAPES, "listings per measurement instance": LIST_SHAPES, "witness database": ["series", "thost", "cnt"]},
+        "read_shape_matrix": {"selections per measurement instance": ALL_SHAPES, "listings per measurement instance": LIST_SHAPES,
+                              "database": ["meas", "measre"], "witness database": ["series", "thost", "cnt"]},
+        "skeletons": sorted(b.bid for b in batches),
+        "shard_groups_written": {b.bid: sorted({g for x in b.behaviours for g in x.c.groups}) for b in batches},
+        "two_phase_drops": {"bursts (mark + racing statements back to back)": sum(x.bursts for x in behaviours),
+                            "marks acknowledged right before the server was stopped": sum(x.deferred for x in behaviours),
+                            "write attempts in flight during a drop": sum(x.race_attempts for x in behaviours),
+                            "catalogue phase when a racing statement was answered": phase_hist(behaviours),
+                            "re-synchronisations (early create met a finished deletion)": sum(x.resync for x in behaviours)},
+        "chunks_read": sum(b.chunks for b in batches),
+        "into_copies": sum(x.into_n for x in behaviours),
+        "promql_behaviours": sum(1 for x in behaviours if x.c.kind == "float"),
         "max_convergence_lag_s": lags,
         "convergence_bound_s": CONV,
         "globals": {b.bid: b.globals_done for b in batches},
@@ -1076,7 +1835,14 @@ def report(batches, stats, exh, seeds, tier, seed, t0):
     vlib.write_evidence(PROP, tier, seed, "model_checking", cov, time.time() - t0, nviol, [
         "TLC bounds as in the cfg files named under coverage.tlc",
         "single-node ts-server over HTTP, one server per skeleton; every behaviour in its own database (two retention policies, "
-        "measurements m and n), timestamps in one shard group, values unique per written row",
+        "measurements m and n), values unique per written row; skeletons A-E: timestamps in one shard group; G, H: three shard "
+        "groups two weeks apart, shard-group duration set by the policy DDL (H: SHARD DURATION 1d INDEX DURATION 7d, two shard "
+        "groups in one index group); P, Q: wholesale drops in their three steps",
+        "two-phase drops: the internal steps (stores delete, catalogue entry removed) cannot be triggered from outside: the replay "
+        "WAITS for them (meta GET /getdata, data directories) and issues racing statements back to back right after the mark "
+        "(the phase met is recorded, never judged); an early CREATE that meets an already finished deletion is undone",
+        "SELECT ... INTO copies go to the witness database; PromQL reads only where the field is a float; SLIMIT is specified as "
+        "the first series in tag order",
         f"after an acknowledged statement the matrix is polled for at most {CONV:.0f} s until it equals the expectation (series index "
         "flush ~1-2 s, tag-filter cache invalidation every 10 s, two-phase drops); once converged every later action is judged on "
         "its first answer if that answer contains data the expectation does not",
@@ -1088,9 +1854,19 @@ def report(batches, stats, exh, seeds, tier, seed, t0):
         "series ids start at the creation second of a database: every database incarnation is padded into an id range of its own so "
         "that the stale delete set kept by pooled index searches (F-C13-3) cannot act between unrelated behaviours; a witness database "
         "with colliding ids and fixed contents shows that defect in a controlled way",
-        "DROP SERIES without FROM is rejected by the executor (not acknowledged): the specification expects no change",
+        "DROP SERIES without FROM is rejected by the executor (not acknowledged): the specification expects no change; the same "
+        "holds for DROP SERIES with a time bound (InfluxQL has none), DELETE and DROP SHARD (unsupported command)",
     ])
     return nviol
+
+
+def phase_hist(behaviours):
+    out = {}
+    for x in behaviours:
+        for si, ph in x.phase_seen.items():
+            key = f"{x.hist[si]['a']}:{ph}"
+            out[key] = out.get(key, 0) + 1
+    return out
 
 
 def run(tier, seed):
